@@ -167,7 +167,11 @@ class Ctx:
         return info
 
     def _guarded(self, ev, case, scale=1.0):
-        from .core import CaseTimeout
+        from .core import CaseTimeout, set_callform, digest
+        try:
+            set_callform(1 + int(digest(case)[:7], 16))       # positional / keyword form of the library calls of this case
+        except Exception:  # noqa: BLE001
+            set_callform(1)
         t = self.part.timeout
         if not t:
             return ev(case)
@@ -270,7 +274,7 @@ def run_part(ctx, n):
         bad = 0
         for _ in range(3):
             try:
-                part.eval_case(f["case"])
+                _eval(part, f["case"])
             except Violation:
                 bad += 1
         if bad:
@@ -346,16 +350,25 @@ def _fresh_fails(prop, part, history, case):
             pass
 
 
+def _eval(part, case):
+    from .core import set_callform, digest
+    try:
+        set_callform(1 + int(digest(case)[:7], 16))
+    except Exception:  # noqa: BLE001
+        set_callform(1)
+    return part.eval_case(case)
+
+
 def _fails_after(part, history, case):
     """evaluate `history` (outcomes ignored) and then `case` in this process; True when `case` then violates the property"""
     from .core import Violation
     for h in history:
         try:
-            part.eval_case(h)
+            _eval(part, h)
         except BaseException:  # noqa: BLE001
             pass
     try:
-        part.eval_case(case)
+        _eval(part, case)
     except Violation:
         return True
     except Exception as e:  # noqa: BLE001
@@ -411,7 +424,7 @@ def worker(jobfile):
 def _run_history(part, rec):
     for h in rec.get("history", ()):
         try:
-            part.eval_case(h)
+            _eval(part, h)
         except BaseException:  # noqa: BLE001
             pass
 
